@@ -192,7 +192,50 @@ let show_tok = function
   | PC (SNe z) -> "ne:" ^ string_of_int (int_of_z z)
   | PC (SAtom a) -> sx_atom a
 
+(* D <atoms> | <plain tok> ... | <disjunct> / <disjunct> ; ...    disjunct = [*]tok,tok,...
+   tok = int string bool null gt:z ... a:<atom>
+     -> acc(original) TAB acc(print_final) TAB tag(C concrete | I not) TAB fold_sensitive TAB
+        set of disjuncts of print_final (acceptance vectors) TAB RT-OK|RT-DIFF (the proved round
+        trip of print_marked, evaluated) *)
+let dtok_of s =
+  match String.split_on_char ':' s with
+  | ["a"; x] -> SAtom (atom_of x)
+  | ["bool"] -> SKind KBool
+  | ["null"] -> SKind KNull
+  | _ -> tok_of s
+
+let handle_d line =
+  match split_trim '|' line with
+  | [head; plain; dss] ->
+    let atoms = match List.filter (fun w -> w <> "") (String.split_on_char ' ' head) with
+      | ["D"; a] -> List.map atom_of (String.split_on_char ',' a) | _ -> failwith "D head" in
+    let words s = List.filter (fun w -> w <> "") (String.split_on_char ' ' s) in
+    let plain = List.map (fun t -> EScalar (dtok_of t)) (words plain) in
+    let rec and_all = function [] -> ETop | [e] -> e | e :: r -> EAnd (e, and_all r) in
+    let disjunct s =
+      let s = String.trim s in
+      let (m, s) = if String.length s > 0 && s.[0] = '*' then (true, String.sub s 1 (String.length s - 1)) else (false, s) in
+      (m, and_all (List.map (fun t -> EScalar (dtok_of t)) (String.split_on_char ',' s))) in
+    let ds = List.map (fun d -> List.map disjunct (String.split_on_char '/' d)) (List.filter (fun x -> x <> "") (split_trim ';' dss)) in
+    let fu = nat_of_int 5 in
+    let p0 = c07_pair [] atoms fu plain ds in
+    let nf = c07_norm_sdisj [] atoms fu plain ds in
+    let fin = c07_take_defaults nf in
+    let pf = c07_pair [] atoms fu [] [c07_print_sdisj fin] in
+    let pm = c07_pair [] atoms fu [] [c07_print_sdisj nf] in
+    let tag = match c07_resolve p0 with
+      | Chosen (RVal (_, _, pin)) -> if List.exists (fun b -> b) pin then "C" else "I"
+      | _ -> "I" in
+    let set = List.sort_uniq compare (List.map (fun (_, cs) ->
+        match c07_sres atoms cs with RVal (_, a, _) -> bits a | _ -> "E") fin) in
+    let rt = if pm = p0 then "RT-OK" else "RT-DIFF" in
+    String.concat "\t" [bits (c07_pair_accepts atoms p0); bits (c07_pair_accepts atoms pf); tag;
+                        (if c07_fold_sensitive [] atoms fu plain ds then "1" else "0");
+                        String.concat "|" set; rt]
+  | _ -> "BADCASE"
+
 let handle line =
+  if String.length line > 2 && line.[0] = 'D' && line.[1] = ' ' then handle_d line else
   if String.length line > 2 && line.[0] = 'B' && line.[1] = ' ' then
     let toks = List.filter (fun w -> w <> "") (String.split_on_char ' ' (String.sub line 2 (String.length line - 2))) in
     String.concat " " (List.map show_tok (c07_range_rewrite (List.map tok_of toks)))
